@@ -181,6 +181,9 @@ DERIVS = [
     ('o[:,1]', lambda h, o: _mat(o)[:, 1], True),
 ]
 DNAMES = [d[0] for d in DERIVS]
+LAST_LEVEL = ['like=', 'Fxp(o)', 'Fxp(o,like=)', 'deepcopy()', 'like()', 'template=', 'config=+kw', 'equal', 'resize_copy', 'neg', 'o+root', 'o*o', 'o/root',
+              'add_out_like', 'o+1', 'invert', 'or_root', 'lshift1', 'rshift0', 'np.add', 'np.sum', 'np.clip', 'm.T', 'm.flatten', 'reads', 'mod',
+              'mul_out_finer', 'o[0]', 'o[0:2]']
 
 
 def _dis():
@@ -599,7 +602,7 @@ def validation(acc):
 
 # ------------------------------------------------------------------------------------------ driver
 def bounds(tier, seed):
-    return {'A_chains': '%d roots (scalar/1-d/2-d x 2 configurations, with callback, raised flag) x chains of derivations from a menu of %d '
+    return {'A_chains_note': 'thorough: the third derivation of a chain is taken from a 29-route sub-menu (LAST_LEVEL)', 'A_chains': '%d roots (scalar/1-d/2-d x 2 configurations, with callback, raised flag) x chains of derivations from a menu of %d '
                         'routes to depth %d (dedup on alias partition + observations after depth 1%s) x %d mutations x every object'
                         % (len(ROOTS), len(DERIVS), 2 if tier == 'quick' else 3, '' if tier == 'quick' else '; depth 2 also without dedup',
                            len(MUTS)),
@@ -635,7 +638,9 @@ def run_shard(sh):
         for depth in range(2, sh['depth'] + 1):
             nxt = []
             for ch in level:
-                for d in DNAMES:
+                # the last level of the deep search takes its derivation from a sub-menu (one representative of every kind of
+                # route: constructor, copy, conversion, arithmetic, bitwise, shift, NumPy function, method, read, view)
+                for d in (DNAMES if depth < 3 else LAST_LEVEL):
                     k = check_chain(acc, root, ch + (d,))
                     if k is None:
                         continue
